@@ -10,7 +10,7 @@ from . import build, gen, model
 from .runner import Violation
 
 ID = "C11"
-RULE = ("plan = (kind, values[0..10 quick / 0..30 thorough]) over every orderable kind (bool, int, float incl. "
+RULE = ("plan = (kind, values[0..10 quick / 0..30 thorough]) over every orderable kind (bool, int64/int32/int8/uint8, float64/float32 incl. "
         "±inf/±0.0/NaN, StringDType short/≥50 chars/astral, legacy <U, date, datetime us/ms/s, timedelta, bytes, "
         "object of str or of one-digit ints with None); each plan runs sort(dir=±1), rank(min/max/ordinal) and "
         "unique against a comparator / counting reference. Non-trivial: length ≥ 3 with a tie or a missing value, "
@@ -20,7 +20,7 @@ FUZZ_RUNS = {"thorough": 30000}     # coverage-guided leg, 8 processes (vlib/fuz
 ASSUMPTIONS = ["object vectors are generated only where str() order and natural order coincide "
                "(strings; one-digit non-negative ints) because the statement defines no order for objects"]
 
-KINDS = ["f", "i", "b", "s", "s", "u", "d", "t", "tm", "ts", "td", "o", "oi", "y"]
+KINDS = ["f", "f", "i", "i", "i", "b", "s", "s", "u", "d", "t", "tm", "ts", "td", "o", "oi", "y", "u8", "i8", "i32", "f32"]
 
 
 @st.composite
